@@ -105,7 +105,11 @@ def score_based_rule_with_tie_breaker(
         candidates = dispatcher.available_operations()
         for scoring_function in score_functions:
             scores = scoring_function(dispatcher)
-            best_score = max(scores)
+            # Only the scores of the remaining candidates count: the best
+            # score overall may belong to a job that is not available.
+            best_score = max(
+                scores[operation.job_id] for operation in candidates
+            )
             candidates = [
                 operation
                 for operation in candidates
